@@ -14,7 +14,7 @@ from qv.monitor import HookSet
 
 ID = "C05"
 RULE = ("input points = physical point + Gaussian noise (1e-3..1e-1), far points (norm up to 1e2), exactly physical and "
-        "boundary points; 4 types x shapes S1,S3,S2 x outcome counts 2..4 x both projection orders x eps in "
+        "boundary points, negative-definite points (-c x physical, c in 0.3..50) and the zero vector; 4 types x shapes S1,S3,S2 x outcome counts 2..4 x both projection orders x eps in "
         "{1e-6,1e-8,1e-10,1e-14} x both parametrisation flags; a case is distinct by (type,shape,m,flag,eps,rounded input) "
         "and non-trivial when the input is not already physical (the projection has to move it)")
 ANCHORS = [
@@ -253,13 +253,18 @@ def run_shard(ctx):
             if shape == "S2" and t == "MProcess":
                 m = 2
             eps = float(EPSS[i % len(EPSS)] if rng.random() < 0.7 else rng.choice(EPSS))
-            kind = str(rng.choice(["near", "near", "far", "far", "physical", "boundary"]))
+            kind = str(rng.choice(["near", "near", "far", "far", "physical", "boundary", "negative", "negative"]))
             base = refopt.random_physical(t, B, d, m, rng, rank=1 if kind == "boundary" else None)
             if kind == "near":
                 s_in = base + float(rng.choice([1e-3, 1e-2, 1e-1])) * rng.standard_normal(base.size)
             elif kind == "far":
                 g = rng.standard_normal(base.size)
                 s_in = base + g / np.linalg.norm(g) * float(rng.choice([1.0, 10.0, 100.0]))
+            elif kind == "negative":
+                # every operator negative (semi)definite: the inequality projection sends the point (almost) to zero, the
+                # iteration stalls in x while the increments keep changing - hostile to "x did not move" stopping rules
+                # (missed seeded change C05-3); occasionally the exact zero vector
+                s_in = -float(rng.choice([0.3, 1.0, 5.0, 50.0])) * base if rng.random() < 0.85 else np.zeros_like(base)
             else:
                 s_in = base
             if flag:
